@@ -145,6 +145,8 @@ class TreeGen:
             ("dir_in", "sub"), ("up", ".."), ("viaback.txt", up + "/outside/back/in.txt"), ("dirback", up + "/outside/back"),
             ("ch1.txt", "ch2"), ("ch2", "ch3"), ("ch3", "a.txt"), ("slashy", "sub//./"), ("abs_dir_out", "$SB/outside/"),
             ("long_chain.txt", "$SB/chains/c0"), ("too_long_chain.txt", "$SB/chains/d0"), ("tolink", "lnk_out.txt"),
+            # a sibling directory whose name has the search directory's name as a prefix (root / root2)
+            ("sib.txt", up + "/root2/only2.txt"), ("sibdir", up + "/root2"), ("abs_sib.txt", "$SB/root2/a.txt"),
         ]
         if with_links:
             for n, t in r.sample(pool, r.range(3, len(pool))):
@@ -176,6 +178,28 @@ class TreeGen:
         top = {"root": root, "root2": root2, "outside": outside, "chains": {"d": chains}, "pk": {"d": {"PKG": pkg}},
                "rootlnk": {"l": "root"}, "a.txt": {"f": self.fid()}}
         return {"d": top}
+
+
+def shrink_tree(case):
+    """the same case over a smaller tree: drop one entry (two levels deep) at a time"""
+    import copy
+
+    tree = case["tree"]
+    for top, sub in list(tree["d"].items()):
+        if top not in ("root", "pk"):
+            t = copy.deepcopy(tree)
+            del t["d"][top]
+            yield {**case, "tree": t}
+        if "d" in sub and top != "pk":
+            for name in list(sub["d"]):
+                t = copy.deepcopy(tree)
+                del t["d"][top]["d"][name]
+                yield {**case, "tree": t}
+                if "d" in sub["d"][name]:
+                    for n2 in list(sub["d"][name]["d"]):
+                        t = copy.deepcopy(tree)
+                        del t["d"][top]["d"][name]["d"][n2]
+                        yield {**case, "tree": t}
 
 
 def walk_paths(node, prefix=""):
@@ -257,7 +281,8 @@ def mutate_name(rng, base: str, sb_expr: str, through: list) -> tuple:
     if k == 28:
         return r.choice(["lnk_out.txt", "dir_out/secret.txt", "abs_out.txt", "up/outside/secret.txt", "up/a.txt", "dir_out/sub/in.txt",
                          "loopA", "self", "dangling.txt", "long_chain.txt", "too_long_chain.txt", "tolink", "dirback/in.txt", "viaback.txt",
-                         "abs_dir_out/secret.txt", "lnk_out", "dir_out/secret", "dir_out/noext", "up/root/a.txt", "slashy/in.txt"]), "link-probe"
+                         "abs_dir_out/secret.txt", "lnk_out", "dir_out/secret", "dir_out/noext", "up/root/a.txt", "slashy/in.txt",
+                         "sib.txt", "sibdir/only2.txt", "sibdir/a.txt", "abs_sib.txt", "up/root2/only2.txt"]), "link-probe"
     if k == 29:
         return "./" * r.range(2, 5) + base + "/." * r.range(0, 3), "dots"
     if k == 30:
@@ -283,6 +308,8 @@ def through_link_paths(tree_root: dict, sb_tree: dict) -> list:
             out += [n + "/" + f for f in outside_files] + [n + "/back/in.txt"]
         if n in ("dir_in", "dirback", "slashy"):
             out += [n + "/" + f for f in sub_files]
+        if n == "sibdir":
+            out += ["sibdir/only2.txt", "sibdir/a.txt"]
         if n == "up":
             out += ["up/a.txt", "up/outside/secret.txt", "up/root/a.txt", "up/root2/only2.txt"]
     return out
@@ -530,6 +557,8 @@ class LoaderStream(Stream):
 
     def shrink_candidates(self, case):
         names, tags = case["names"], case["tags"]
+        if len(names) == 1:
+            yield from shrink_tree(case)
         if len(names) > 1:
             for i in range(len(names)):
                 d = dict(case)
@@ -759,6 +788,44 @@ class SuffixStream(Stream):
         return ["ok" if "ok" in obs else "ValueError"]
 
 
+class JoinStream(Stream):
+    """`base.joinpath(tp)` as FileSystemLoader calls it and `base.joinpath(str(tp))` as PackageLoader calls it
+    (pathlib joins the raw strings and parses again) against the model's `join` on parsed paths."""
+
+    name = "join"
+    exhaustive = True
+
+    def cases(self, ctx):
+        import itertools
+
+        small = ["".join(t) for n in range(0, ctx.scale(3, 4) + 1) for t in itertools.product("/.a", repeat=n)]
+        out = [[a, b] for a in small for b in small]
+        rng = ctx.rng_for("join")
+        rn = random_names(rng, ctx.scale(400, 4000))
+        out += [[rng.choice(rn), rng.choice(rn)] for _ in range(ctx.scale(2000, 20000))]
+        return out
+
+    def impl(self, case):
+        from pathlib import PurePosixPath
+
+        a, b = PurePosixPath(case[0]), PurePosixPath(case[1])
+        return {"path": str(a.joinpath(b)), "via_str": str(a.joinpath(str(b)))}
+
+    def line(self, case):
+        return ["c22_join", cps(case[0]), cps(case[1])]
+
+    def canon_model(self, case, mobs):
+        if isinstance(mobs, dict) and "ok" in mobs:
+            return {"path": _s(mobs["ok"]), "via_str": _s(mobs["ok"])}
+        return mobs
+
+    def nontrivial(self, case, obs):
+        return case[1].startswith("/") or "." in case[1] or case[0] == ""
+
+    def tags(self, case, obs):
+        return ["abs-right" if case[1].startswith("/") else "rel-right"]
+
+
 FS_PREFIXES = ["$SB/root/", "$SB/root/", "root/", "$SB/root/sub/../", "$SB/rootlnk/", "$SB/outside/", "", "./root/", "$SB/root/sub/",
                "$SB/chains/", "//$SB/root/", "$SB/pk/PKG/templates/"]
 
@@ -899,4 +966,4 @@ class FsPrimStream(Stream):
 
 
 def streams(ctx):
-    return [PathlibStream(), SuffixStream(), FsPrimStream(), FslStream(), PkgStream()]
+    return [PathlibStream(), SuffixStream(), JoinStream(), FsPrimStream(), FslStream(), PkgStream()]
